@@ -26,10 +26,9 @@ RULE = ("seeded samples of the property's parameter product: batch 1..2, C,O 1..
         "stride 1..3, both ceil modes, half of the arrays all-negative, three argument kinds; float routines on dim 2..4 arrays. "
         "non-trivial = a spatial extent > 1 and (kernel > 1 or more than one channel); distinct = distinct case lines")
 THEOREM_STATUS = {
-    "proved": ["C17_conv2d_out_shape", "C17_conv1d_out_shape", "C17_sliding_window_elem", "C17_expand_elem",
-               "C17_conv_group_on_domain", "C17_conv_reshape_maps", "C17_pool_out_shape_floor", "C17_pool_out_shape_ceil_on_domain",
-               "C17_pool_window", "C17_pad_elem"],
-    "partial": ["C17_conv_elem_partial"],
+    "proved": ["C17_conv2d_out_shape", "C17_conv1d_out_shape", "C17_sliding_window_elem", "C17_expand_elem", "C17_pad_elem",
+               "C17_conv_reshape_maps", "C17_conv_group_on_domain", "C17_pool_out_shape_on_domain", "C17_pool_extent_meaning"],
+    "partial": [],
     "refuted": ["C17_conv_batch_refuted", "C17_conv_group_refuted", "C17_conv_dilation_pair_refuted", "C17_pool_out_shape_ceil_refuted"]}
 ASSUMPTIONS = ["shape_pool2d's float division is modelled as exact rational division (true for extents below 2^23)",
                "floating-point routines are compared with a hand-written OCaml oracle, not with an extracted model",
